@@ -108,8 +108,8 @@ func (p *Printer) emit(t *Term) {
 		p.names[t.ID] = s
 		return
 	case KVar:
-		s = smtName(t.Name)
-		p.Vars[t.Name] = t
+		s = VarSMTName(t)
+		p.Vars[s] = t
 		p.names[t.ID] = s
 		return
 	case KExtract:
@@ -139,6 +139,16 @@ func (p *Printer) emit(t *Term) {
 	name := fmt.Sprintf("%s%d", p.pfx, p.n)
 	p.defs = append(p.defs, fmt.Sprintf("(define-fun %s () %s %s)", name, sortOf(t), s))
 	p.names[t.ID] = name
+}
+
+// VarSMTName is the SMT-LIB symbol of a variable: the name plus its sort, so that jobs sharing
+// one solver process may reuse a name at a different width.
+func VarSMTName(t *Term) string {
+	suffix := fmt.Sprintf("#%d", t.W)
+	if t.Arr {
+		suffix = fmt.Sprintf("#arr%d", t.W)
+	}
+	return smtName(t.Name + suffix)
 }
 
 // SortedVars lists the variables seen by the printer.
